@@ -218,6 +218,9 @@ type State struct {
 	sideOwned bool
 	sideStr   map[string]string // mutex holder names (diagnostics)
 	held      []string          // mutex keys currently held (all threads)
+	dom       map[int32]*byteDom // allowed values of 8-bit inputs (from single-variable conjuncts)
+	linked    map[int32]bool     // variables occurring in multi-variable conjuncts
+	domOwned  bool
 	lastSec   *Term
 	lastNsec  *Term
 	fresh     int
@@ -259,6 +262,8 @@ func (s *State) fork() *State {
 	n.sideStr = s.sideStr
 	n.held = s.held
 	n.lastSec, n.lastNsec, n.fresh = s.lastSec, s.lastNsec, s.fresh
+	n.dom, n.linked, n.domOwned = s.dom, s.linked, false
+	s.domOwned = false
 	n.threads = make([]*Thread, len(s.threads))
 	for i, t := range s.threads {
 		nt := &Thread{blocked: t.blocked, done: t.done, name: t.name, panicV: t.panicV}
@@ -403,6 +408,7 @@ func (s *State) addPC(c *Term) {
 		}
 	}
 	s.pc = append(s.pc, c)
+	s.noteConstraint(c)
 }
 
 func (s *State) setSideStr(k, v string) {
